@@ -1214,6 +1214,8 @@ def st_preds(draw, fields, prefer=None):
     """a predicate or an iterable of predicates"""
     if prefer and draw(st.integers(0, 3)) != 0:
         base = st.sampled_from(prefer).map(lambda n: ["name", n])
+    elif prefer is not None and draw(st.integers(0, 5)) != 0:
+        base = st_pred(fields).filter(lambda p: p[0] != "any")
     else:
         base = st_pred(fields)
     if draw(st.booleans()):
@@ -1224,10 +1226,10 @@ def st_preds(draw, fields, prefer=None):
 @st.composite
 def st_result(draw, family, alloc):  # noqa: C901, PLR0911
     """a mapping result; ``alloc`` hands out fresh keys / indices so that most layouts are valid"""
-    r = draw(st.integers(0, 19))
+    r = draw(st.integers(0, 39))
     if r == 0:
         return ["none"]
-    if r == 1:
+    if r in (1, 2) and family in ("flat", "nested"):
         return ["e"]
     form = draw(st.sampled_from(["tuple", "list"]))
     if family == "flat":
@@ -1244,8 +1246,8 @@ def st_result(draw, family, alloc):  # noqa: C901, PLR0911
             return ["p", [["e"], *groups[:1], ["k", "leaf"]], form]
         return ["p", [*groups, last], form]
     # mixed: lists inside dicts and dicts inside lists
-    if draw(st.booleans()):
-        return ["p", [["k", draw(st.sampled_from(["L1", "L2"]))], ["i", alloc.index(draw)]], form]
+    if alloc.mixed_form == 0:
+        return ["p", [["k", draw(st.sampled_from(["L1", "L1", "L2"]))], ["i", alloc.index(draw)]], form]
     return ["p", [["i", draw(st.integers(0, 1))], ["k", alloc.key(draw)]], form]
 
 
@@ -1253,6 +1255,7 @@ class Alloc:
     def __init__(self):
         self.keys = list(FLAT_KEYS)
         self.next_index = 0
+        self.mixed_form = 0
 
     def key(self, draw):
         if draw(st.integers(0, 24)) == 0 or not self.keys:
@@ -1271,7 +1274,7 @@ class Alloc:
 
 
 @st.composite
-def st_map(draw, fields, family, alloc):
+def st_map(draw, fields, family, alloc, cover=False):
     names = [f["n"] for f in fields]
     if not names:
         return ["dict", {}]
@@ -1279,6 +1282,9 @@ def st_map(draw, fields, family, alloc):
     def some_dict():
         chosen = draw(st.lists(st.sampled_from(names), min_size=1, max_size=len(names), unique=True))
         return ["dict", {n: draw(st_result(family, alloc)) for n in chosen}]
+    if cover:
+        # every field gets a place of the same kind (needed for layouts whose root is a list)
+        return ["dict", {n: draw(st_result(family, alloc)) for n in draw(st.permutations(names))}]
     if draw(st.integers(0, 2)) != 0:
         return some_dict()
     entries = []
@@ -1287,9 +1293,22 @@ def st_map(draw, fields, family, alloc):
         if r <= 1:
             entries.append(some_dict())
         elif r <= 4:
-            entries.append(["pair", draw(st_pred(fields)), draw(st_result(family, alloc))])
+            pred = draw(st_pred(fields))
+            if pred[0] != "name" and draw(st.integers(0, 9)) != 0:
+                # a predicate that can match several fields needs a result that differs per field
+                if family == "nested":
+                    res = ["p", [["k", draw(st.sampled_from(GROUPS[:3]))], ["e"]], draw(st.sampled_from(["tuple", "list"]))]
+                elif family == "flat":
+                    res = ["e"]
+                else:
+                    pred = ["name", draw(st.sampled_from(names))]
+                    res = draw(st_result(family, alloc))
+            else:
+                res = draw(st_result(family, alloc))
+            entries.append(["pair", pred, res])
         else:
-            entries.append(["func", draw(st_pred(fields)), draw(st.sampled_from(sorted(MAP_FUNCS)))])
+            entries.append(["func", draw(st_pred(fields)),
+                            draw(st.sampled_from(["upper", "upper", "suffix", "suffix", "group", "group", "ell", "ell", "none"]))])
     return ["list", entries]
 
 
@@ -1298,51 +1317,88 @@ def st_recipe(draw, ms, probe):  # noqa: C901, PLR0912, PLR0915
     fields = ms["fields"]
     names = [f["n"] for f in fields]
     optional_in = [f["n"] for f in fields if f["p"] != "req"]
+    required_in = [f["n"] for f in fields if f["p"] == "req"]
     dict_fields = [f["n"] for f in fields if f["t"] == "dict"]
     has_inner = ms["inner"] is not None
-    all_req = not optional_in
-    family = draw(st.sampled_from(["flat", "flat", "nested", "nested", "list", "mixed"] if all_req
-                                  else ["flat", "flat", "flat", "nested", "nested", "nested", "list", "mixed"]))
+    family = draw(st.sampled_from(["flat", "flat", "nested", "nested", "list", "list", "mixed"]))
     if probe == "skeleton":
         family = "nested"
     alloc = Alloc()
+    alloc.mixed_form = draw(st.integers(0, 1))
+    list_root = family == "list" or (family == "mixed" and alloc.mixed_form == 1)
+    # list layouts: "as_list" (positions by definition order), a map that gives every field an index, or both
+    list_variant = draw(st.sampled_from(["as_list", "as_list", "full_map", "full_map", "both"]))
     provs = []
-    for _ in range(draw(st.sampled_from([1, 1, 2, 2, 3]))):
+    nprov = draw(st.sampled_from([1, 1, 2, 2, 3]))
+    for pi in range(nprov):
         prov = {}
         collecting = False
-        if draw(st.integers(0, 9)) < 6 or probe == "skeleton":
-            prov["map"] = draw(st_map(fields, family, alloc))
-        if family == "list" and draw(st.booleans()) or draw(st.integers(0, 24)) == 0:
-            prov["as_list"] = draw(st.sampled_from([True, True, True, False]))
+        if list_root:
+            if pi == 0:
+                if family == "list" and list_variant in ("as_list", "both"):
+                    prov["as_list"] = True
+                if family == "mixed" or list_variant == "full_map":
+                    prov["map"] = draw(st_map(fields, family, alloc, cover=True))
+                elif list_variant == "both" and len(names) >= 2:
+                    # the documented way to override the order: swap two positions
+                    i, j = sorted(draw(st.lists(st.integers(0, len(names) - 1), min_size=2, max_size=2, unique=True)))
+                    order = definition_order(fields, ms["kind"])
+                    prov["map"] = ["dict", {order[i]: ["i", j], order[j]: ["i", i]}]
+                if optional_in and draw(st.integers(0, 4)) != 0:
+                    # optional fields cannot live in a list: leave them out (skip, or a map result of None)
+                    if draw(st.booleans()) or "map" not in prov or prov["map"][0] != "dict":
+                        prov["skip"] = [["name", n] for n in optional_in]
+                    else:
+                        for n in optional_in:
+                            prov["map"][1][n] = ["none"]
+            elif draw(st.integers(0, 3)) == 0:
+                prov["map"] = draw(st_map(fields, family, alloc))
+            if draw(st.integers(0, 19)) == 0:
+                prov["as_list"] = draw(st.booleans())
+        else:
+            if draw(st.integers(0, 9)) < 6 or probe == "skeleton":
+                prov["map"] = draw(st_map(fields, family, alloc))
+            if draw(st.integers(0, 29)) == 0:
+                prov["as_list"] = draw(st.booleans())
         if draw(st.integers(0, 3)) == 0:
             prov["style"] = draw(st.sampled_from([*STYLES, None]))
         if draw(st.integers(0, 5)) == 0:
             prov["trim"] = draw(st.booleans())
-        if draw(st.integers(0, 4)) == 0:
+        if "skip" not in prov and draw(st.integers(0, 4 if optional_in else 11)) == 0:
             prov["skip"] = draw(st_preds(fields, prefer=optional_in))
         if draw(st.integers(0, 7)) == 0:
-            prov["only"] = draw(st_preds(fields))
+            if draw(st.integers(0, 3)) != 0 and names:
+                keep = required_in + draw(st.lists(st.sampled_from(names), max_size=2))
+                prov["only"] = [["name", n] for n in dict.fromkeys(keep)]
+            else:
+                prov["only"] = draw(st_preds(fields))
         if draw(st.integers(0, 2)) == 0 or probe == "omit":
             prov["omit_default"] = True if probe == "omit" else draw(st.one_of(st.just(True), st.just(True), st.just(False),
                                                                                st_preds(fields, prefer=optional_in)))
         if draw(st.integers(0, 1)) == 0 or probe == "skeleton":
-            opts = [["skip"], ["forbid"], ["forbid"], ["saturator"]]
+            opts = [["skip"], ["forbid"], ["forbid"]]
+            if not list_root:
+                opts.append(["saturator"])
+                if ms["kind"] == "initkw":
+                    opts += [["kwargs"]] * 4
+                if dict_fields:
+                    opts += [["field", dict_fields[0]], ["field", dict_fields[-1]]]
+                    if len(dict_fields) > 1:
+                        opts += [["fields", dict_fields], ["fields", dict_fields[::-1]]]
             if probe == "skeleton":
-                opts = [["saturator"]]
-            if ms["kind"] == "initkw":
-                opts += [["kwargs"], ["kwargs"]]
-            if dict_fields:
-                opts += [["field", dict_fields[0]], ["field", dict_fields[-1]]]
-                if len(dict_fields) > 1:
-                    opts.append(["fields", dict_fields])
+                opts = [o for o in opts if o[0] not in ("skip", "forbid")]
+            elif draw(st.integers(0, 24)) == 0:
+                opts = [["saturator"]]  # also with list layouts (documented as unsupported)
             prov["extra_in"] = draw(st.sampled_from(opts))
             collecting = prov["extra_in"][0] not in ("skip", "forbid")
         if ms["kind"] != "initkw" and draw(st.integers(0, 2)) == 0:
-            opts = [["skip"], ["extractor"]]
-            if dict_fields:
-                opts += [["field", dict_fields[0]], ["field", dict_fields[-1]]]
-                if len(dict_fields) > 1:
-                    opts.append(["fields", dict_fields])
+            opts = [["skip"]]
+            if not list_root or draw(st.integers(0, 9)) == 0:
+                opts.append(["extractor"])
+                if dict_fields:
+                    opts += [["field", dict_fields[0]], ["field", dict_fields[-1]]]
+                    if len(dict_fields) > 1:
+                        opts += [["fields", dict_fields]] * 2
             prov["extra_out"] = draw(st.sampled_from(opts))
             collecting = collecting or prov["extra_out"][0] != "skip"
         if has_inner and collecting:
@@ -1357,10 +1413,16 @@ def st_recipe(draw, ms, probe):  # noqa: C901, PLR0912, PLR0915
         ialloc = Alloc()
         prov = {"pred": draw(st.sampled_from(["inner", ["field", "inner_f"]]))}
         ifam = draw(st.sampled_from(["flat", "flat", "nested", "list"]))
-        if draw(st.booleans()):
+        if ifam == "list":
+            if draw(st.booleans()) and all(f["p"] == "req" for f in ifields):
+                prov["as_list"] = True
+            else:
+                prov["map"] = draw(st_map(ifields, ifam, ialloc, cover=True))
+                opt = [f["n"] for f in ifields if f["p"] != "req"]
+                if opt:
+                    prov["skip"] = [["name", n] for n in opt]
+        elif draw(st.booleans()):
             prov["map"] = draw(st_map(ifields, ifam, ialloc))
-        if ifam == "list" and draw(st.booleans()):
-            prov["as_list"] = True
         if draw(st.integers(0, 2)) == 0:
             prov["style"] = draw(st.sampled_from(STYLES))
         if draw(st.integers(0, 2)) == 0:
@@ -1368,7 +1430,6 @@ def st_recipe(draw, ms, probe):  # noqa: C901, PLR0912, PLR0915
         if draw(st.integers(0, 3)) == 0:
             prov["omit_default"] = True
         provs.insert(draw(st.integers(0, len(provs))), prov)
-    del names
     return provs
 
 
